@@ -189,12 +189,22 @@ inductive MBody
 deriving DecidableEq, Repr
 
 inductive DirRep
-  | redirect   -- 307 (or 200) with a Location on another host
-  | noloc      -- 200 or 307 without Location (`resp.Location()` fails)
-  | badstatus  -- any other status handed back: 301/302/303/308 to another host or without Location, 204 …
-  | badloc     -- 3xx whose Location does not parse: the client itself fails the request
-  | redirectDead  -- a well-formed redirect to a host that then fails every request
+  | redirect      -- 307 with a Location on another host
+  | redirect200   -- 200 with a Location (accepted as well; not a redirect for the client)
+  | noloc         -- 200 or 307 without Location (`resp.Location()` fails)
+  | badstatus     -- 301/302/303/308 with a Location on another host: handed back, "unexpected status code"
+  | badstatusNoLoc  -- a status that is neither 200 nor 307 and carries no Location (301 without Location, 204 …)
+  | badloc        -- 3xx whose Location does not parse: the client itself fails the request
+  | redirectDead  -- a well-formed 307 to a host that then fails every request
 deriving DecidableEq, Repr
+
+/-- is the answer a redirect for `http.Client` (3xx with a parsable Location), i.e. is `CheckRedirect`
+    consulted — which refuses with `errMaxRedirectsExceeded` once more than 10 requests were made -/
+def DirRep.isRedirect : DirRep → Bool
+  | .redirect => true
+  | .badstatus => true
+  | .redirectDead => true
+  | _ => false
 
 inductive Src
   | honest              -- the requested range of the registry's bytes
@@ -286,25 +296,34 @@ def authStep (cfg : Cfg) (realm hdr : Bytes) (net : Net) : R Unit × Net :=
       (if t then .ok () else .err .auth, { net with tok := ts, nt := net.nt + 1 })
     else (.err .auth, net)
 
+/-- redirect policy of the client used on a stream: at most `budget` requests per `Do` (10 for the default
+    policy, 11 for the direct-URL `CheckRedirect`, `len(via) > 10`), `redir a`: the passed-on answer `a` is itself
+    a redirect the policy is consulted about (and refuses, with an error, when the budget is used up) -/
+structure Policy (α : Type) where
+  budget : Nat
+  redir : α → Bool
+
+def Policy.dflt {α : Type} : Policy α := ⟨10, fun _ => false⟩
+
 /-- one `http.Client.Do`: redirects that the client follows re-issue the request (each one is a request on
-    the stream); after `budget` requests the client gives up with an error (`budget` = 10 for the default
-    policy, 11 for the direct-URL `CheckRedirect`, `len(via) > 10`) -/
-def popFollow {α : Type} (dflt : Reply α) : Nat → List (Reply α) → Reply α × List (Reply α) × Nat
+    the stream); when the budget is used up the client gives up with an error -/
+def popFollow {α : Type} (dflt : Reply α) (redir : α → Bool) : Nat → List (Reply α) → Reply α × List (Reply α) × Nat
   | 0, s => (.neterr, s, 0)
   | b + 1, s =>
     match pop dflt s with
     | (.follow, s') =>
-      let (r, s'', n) := popFollow dflt b s'
+      let (r, s'', n) := popFollow dflt redir b s'
       (r, s'', n + 1)
+    | (.pass a, s') => if redir a && b == 0 then (.neterr, s', 1) else (.pass a, s', 1)
     | (r, s') => (r, s', 1)
 
 /-- `makeRequestWithRetry` (`for range 2`); returns the result, the rest of the script, the
     net state and the number of requests made on this stream -/
-def mrr {α : Type} (cfg : Cfg) (realm : Bytes) (dflt : Reply α) (budget : Nat) :
+def mrr {α : Type} (cfg : Cfg) (realm : Bytes) (dflt : Reply α) (pol : Policy α) :
     Nat → List (Reply α) → Net → R α × List (Reply α) × Net × Nat
   | 0, s, net => (.err .unauthorized, s, net, 0)
   | k + 1, s, net =>
-    match popFollow dflt budget s with
+    match popFollow dflt pol.redir pol.budget s with
     | (.pass a, s', n) => (.ok a, s', net, n)
     | (.neterr, s', n) => (.err .net, s', net, n)
     | (.follow, s', n) => (.err .net, s', net, n)
@@ -313,7 +332,7 @@ def mrr {α : Type} (cfg : Cfg) (realm : Bytes) (dflt : Reply α) (budget : Nat)
     | (.unauth hdr, s', n) =>
       match authStep cfg realm hdr net with
       | (.ok (), net') =>
-        let (x, s'', net'', m) := mrr cfg realm dflt budget k s' net'
+        let (x, s'', net'', m) := mrr cfg realm dflt pol k s' net'
         (x, s'', net'', m + n)
       | (.err e, net') => (.err e, s', net', n)
       | (.panic p, net') => (.panic p, s', net', n)
@@ -520,11 +539,13 @@ def directLoop (cfg : Cfg) (realm : Bytes) (dflt : Reply DirRep) :
   | f + 1, s, net =>
     if s.isEmpty && replyFails dflt then (.err .deadline, { net with dStar := true })
     else
-      match mrr cfg realm dflt 11 2 s net with
+      match mrr cfg realm dflt ⟨11, DirRep.isRedirect⟩ 2 s net with
       | (.ok .redirect, _, net', n) => (.ok false, { net' with nd := net'.nd + n })
+      | (.ok .redirect200, _, net', n) => (.ok false, { net' with nd := net'.nd + n })
       | (.ok .redirectDead, _, net', n) => (.ok true, { net' with nd := net'.nd + n })
       | (.ok .noloc, _, net', n) => (.err .noLocation, { net' with nd := net'.nd + n })
       | (.ok .badstatus, _, net', n) => (.err .directStatus, { net' with nd := net'.nd + n })
+      | (.ok .badstatusNoLoc, _, net', n) => (.err .directStatus, { net' with nd := net'.nd + n })
       | (.panic p, _, net', n) => (.panic p, { net' with nd := net'.nd + n })
       | (.ok .badloc, s', net', n) => directLoop cfg realm dflt f s' { net' with nd := net'.nd + n }
       | (.err _, s', net', n) => directLoop cfg realm dflt f s' { net' with nd := net'.nd + n }
@@ -541,7 +562,7 @@ def downloadLayer (cfg : Cfg) (reg : Registry) (d : Digest) (ls : LScript) (pa :
       let dflt : Reply Nat := match has with
         | some c => .pass c.length
         | none => .notfound
-      match mrr cfg reg.realm dflt 10 2 ls.head net with
+      match mrr cfg reg.realm dflt Policy.dflt 2 ls.head net with
       | (.ok total, _, net', n) => (.ok (plan cfg total, total), { net' with nh := net'.nh + n })
       | (.err e, _, net', n) => (.err e, { net' with nh := net'.nh + n })
       | (.panic p, _, net', n) => (.panic p, { net' with nh := net'.nh + n })
@@ -662,7 +683,7 @@ def pull (cfg : Cfg) (hash : Bytes → Digest) (name : Name) (reg : Registry) (s
     | some (.readable m) => (m.all.map (·.digest))
     | _ => []
   let net0 : Net := { tok := sc.token }
-  match mrr cfg reg.realm (.pass .served) 10 2 sc.manifest net0 with
+  match mrr cfg reg.realm (.pass .served) Policy.dflt 2 sc.manifest net0 with
   | (.err _, _, net1, n) => (.err .manifest, st, ⟨{ net1 with nm := n }, []⟩)
   | (.panic p, _, net1, n) => (.panic p, st, ⟨{ net1 with nm := n }, []⟩)
   | (.ok .badjson, _, net1, n) => (.err .manifest, st, ⟨{ net1 with nm := n }, []⟩)
